@@ -420,6 +420,45 @@ func init() {
 					d := map[string]interface{}{"cloner": cl.name, "rpc": "unary", "context_cancelled_before_call": cancelled, "request_read_after_return": late}
 					o.Case("late_read_"+cl.name, fmt.Sprintf("Late %d %s %s", ci, hx.B(cancelled), hx.B(late)), d)
 				}
+				// ---------- the same for a STREAM send that is cut short: the handler is parked in RecvMsg, the caller's
+				// context ends while SendMsg is in flight: once SendMsg has returned the library reads the message no more
+				// (unlike the unary case above, which is the listed finding F13, a stream send clones before it returns) ----------
+				{
+					inner := cl.mk()
+					if inner == nil {
+						inner = inprocgrpc.ProtoCloner{}
+					}
+					g := &gateCloner{inner: inner, returned: make(chan struct{})}
+					sch := (&inprocgrpc.Channel{}).WithCloner(g)
+					parked := make(chan struct{})
+					sch.RegisterService(hx.Desc(hx.SvcName), &hx.Svc{Stream: func(k string, ss grpc.ServerStream) error {
+						close(parked)
+						ss.RecvMsg(&hx.Msg{})
+						return nil
+					}})
+					ctx, cancel := context.WithCancel(context.Background())
+					cs, err := sch.NewStream(ctx, hx.StreamDescOf("BD"), "/verif.Svc/BD")
+					late := false
+					if err == nil {
+						<-parked
+						time.Sleep(20 * time.Millisecond)                                                                                                // the handler is inside RecvMsg now
+						req := &hx.Msg{Count: 9, Payload: []byte("a request the caller goes on to reuse"), Headers: map[string][]byte{"h": []byte("v")}} // (fixed: no draw from the generator)
+						g.mu.Lock()
+						g.watched, g.callerGID = req, curGoroutineID()
+						g.mu.Unlock()
+						time.AfterFunc(30*time.Millisecond, cancel)
+						cs.SendMsg(req)
+						close(g.returned)
+						time.Sleep(20 * time.Millisecond)
+						g.mu.Lock()
+						late = g.lateReads > 0
+						g.mu.Unlock()
+						runtime.KeepAlive(cs)
+					}
+					cancel()
+					d := map[string]interface{}{"cloner": cl.name, "rpc": "BD: the handler waits in RecvMsg, the context is cancelled while SendMsg is in flight", "request_read_after_SendMsg_returned": late}
+					o.Case("late_read_stream_"+cl.name, fmt.Sprintf("Iso %d %s false %s true", ci, hx.Str("stream send cut short by cancellation"), hx.B(!late)), d)
+				}
 				// ---------- a handler that keeps the response it returned (a cached value): no later traffic may change it ----------
 				{
 					cached := mkMsg(false)
